@@ -2,7 +2,7 @@
 From Coq Require Import ZArith List String Bool Lia.
 Import ListNotations.
 From TD Require Import Model.Keys Proofs.KeysP Model.C04_Tree Model.C04_Ops Model.C04_Views Model.C04_Step
-     Spec.C04_NestedDict Proofs.C04_AssocP Proofs.C04_CoreP Proofs.C04_RenameP Proofs.C04_UpdateP.
+     Spec.C04_NestedDict Proofs.C04_AssocP Proofs.C04_CoreP Proofs.C04_RenameP Proofs.C04_UpdateP Proofs.C04_ViewsP Proofs.C04_FlattenP.
 Open Scope string_scope.
 Open Scope list_scope.
 
@@ -80,6 +80,7 @@ Definition in_scope (o : op) : Prop :=
   | ONop | OClear | OFilterEmpty | ODel _ | ODelItem _ | OPop _ _ | OSet _ _ | OSetItem _ _ | OSetDefault _ _ => True
   | ORename k1 k2 _ => ~ strict_prefix (strings k1) (strings k2)   (* D42 *)
   | OUpdate _ => True
+  | OFlatten _ inplace _ => inplace = false                        (* in place: D24 *)
   | _ => False
   end.
 
@@ -160,6 +161,11 @@ Proof.
     + rewrite P. cbn. split; reflexivity.
     + contradiction.
     + destruct P as [P ->]. rewrite P. cbn. split; [discriminate|reflexivity].
+  - (* flatten_keys out of place *)
+    injection A as <-. subst inplace. cbn [step nd_step]. pose proof (flatten_out_refines sep es) as P.
+    destruct (flatten_out sep es) as [out|e]; rewrite P; cbn.
+    + split; [reflexivity|]. unfold abs_sres. cbn. destruct cont; reflexivity.
+    + split; [discriminate|reflexivity].
   - (* clear *) injection A as <-. cbn [step nd_step]. rewrite clear_nil. cbn. split; reflexivity.
   - (* filter_empty *) injection A as <-. cbn [step nd_step]. cbn. split; [reflexivity|].
     unfold abs_sres. cbn. now rewrite filter_empty_abs.
@@ -281,6 +287,8 @@ Proof.
     + destruct (get k es) as [w| |e]; exact W.
     + destruct (set_tuple p v es) as [es'|e] eqn:E; [|exact W]. pose proof (set_tuple_wf _ _ _ _ W V E) as W'.
       destruct (get k es') as [w| |e]; exact W'.
+  - subst inplace. cbn [step]. destruct (flatten_out sep es) as [out|e] eqn:E; cbn; [|exact W].
+    destruct cont; [exact (flatten_out_wf _ _ _ W E)|exact W].
   - cbn [step]. rewrite clear_nil. exact wfE_nil.
   - cbn [step]. now apply filter_empty_wf.
 Qed.
